@@ -14,8 +14,8 @@
    generated variable the generator's scope maps it to, or in opt_data).
    Of the STATEMENT stages print / if / let / switch / foreach / for-range / css and call (all forms: data, value and
    content parameters) are proved (below), and the template wrapper with a theorem for every template of a program built
-   from these stages, and messages without plural rendered without a bundle, and ONE WHOLE FILE (C04_gen_file_correct_partial,
-   at the end); plural and messages from a bundle are NOT: they are covered by translation validation only
+   from these stages, and messages rendered without a bundle -- without plural, or one plural with numeric cases --, and ONE
+   WHOLE FILE (C04_gen_file_correct_partial, at the end); messages from a bundle and nested plurals are NOT: they are covered by translation validation only
    (go/cmd/soyverif/c04.go: every generated program is translated by the real
    soyjs.Write, run by node with soyutils.js and compared with the Go render).
    Stages kept for the record:
@@ -50,9 +50,13 @@
                                   union of the files' tables
      gen_correct_partial_msg    : {msg}..{/msg} without plural and without a bundle (raw text, print and call placeholders) -- proved
                                   below (same step); messages rendered from a translation bundle -- not proved
-     gen_correct_partial_plural : {msg}{plural v}{case z}..{default}..{/plural}{/msg} without a bundle -- proved at the end as the
-                                  same three-sided step for the NODE (the plural is not a statement of the subset's syntax
-                                  cstmt, so it is not part of the programs of the file theorem)
+     gen_correct_partial_plural : {msg}{plural v}{case z}..{default}..{/plural}{/msg} without a bundle -- proved at the end: the
+                                  plural is a statement of the subset's syntax (cstmt SMsgPl; its MiniJS statement JSPlural is
+                                  executed as a switch and printed without "break;" after the default clause, as soyjs
+                                  writes it), so the step is a case of C04_gen_correct_partial_stmt
+                                  (C04_gen_correct_partial_plural_stmt) and templates with plural messages are programs of
+                                  the file / registry theorems (C04_plural_file_nonvacuous); the earlier formulation over
+                                  lists of cases (C04_gen_correct_partial_plural) is kept and tied to it by C04_plural_as_stmt
    MiniJS idealises JavaScript: numbers are integers (a result beyond 2^53 is
    OutOfModel), objects have no prototype chain, the operators are defined on
    the operand kinds of the subset only. *)
@@ -518,7 +522,8 @@ Print Assumptions C04_gen_correct_partial_call.
 (* {msg desc=".."}text{$x}{call ..}..{/msg} without plural, rendered WITHOUT a translation bundle (soyhtml walkMsgBody; the
    generator with o_msgs o = None: part of callctx_ok): raw text and placeholders (print, call: msg_ok) are walked in the
    scope of the message on both sides; the JavaScript is the statements of the children one after the other.  Messages with
-   {plural}, and messages rendered from a bundle (soyhtml evalMsg, soyjs evalMsgParts), are NOT proved. *)
+   {plural}: C04_gen_correct_partial_plural_stmt at the end; messages rendered from a bundle (soyhtml evalMsg, soyjs
+   evalMsgParts) are NOT proved. *)
 Theorem C04_gen_correct_partial_msg : forall cf o cc lv st je jst body fuel text env' old,
   c_oblig cf = [] -> callctx_ok cf o cc -> (cc_fuel cc + sdepth (SMsg body) < fuel)%nat -> sim cf cc st je jst old ->
   swf lv (SMsg body) = true -> lvok lv (j_scope jst) ->
@@ -689,8 +694,9 @@ Proof. exact c04_imp_free_es5. Qed.
            to_js of the data map when its keys are identifiers) and the same injected data, returns text.
    NOT PROVED / outside: (a) the ES6 formatter (cn_ok and c04_imp_free fail: a call is renamed by ES6Identifier and
    imported); (b) the step from the emitted text to a function table in a real engine -- parsing the printed functions,
-   the namespace objects, soyutils.js --: node correspondence of the harness (MiniJS-vs-V8); (c) {msg} with {plural} and
-   messages rendered from a bundle (soyjs evalMsgParts): C11_three_sided_translation_partial covers bundle messages of
+   the namespace objects, soyutils.js --: node correspondence of the harness (MiniJS-vs-V8); (c) messages rendered from a
+   bundle (soyjs evalMsgParts) and nested plurals (a message whose child is ONE plural with numeric cases is a statement of the
+   subset: SMsgPl, C04_plural_file_nonvacuous): C11_three_sided_translation_partial covers bundle messages of
    plain items relative to C04's step, not composed here; (d) a registry of several files: see
    C04_gen_registry_correct_partial below.  (Execute enters a template of a namespace without an autoescape attribute in
    mode "on" while a call -- and the generator -- use "unspecified": the subset semantics is the same for both, bout_mode01.) *)
@@ -802,8 +808,8 @@ Qed.
          switch WITHOUT the "break;" after the default clause -- C04_plural_text_vs_sprint: the printed form of the MiniJS
          statement is the emitted text with that one line added (last clause: no effect);
    and the resulting states are related by sim again, with the generator's scope unchanged and its counter behind the last body.
-   NOT part of it: the plural inside a program of Model/MiniJSProg.v (cstmt has no constructor for it: the file theorem
-   does not cover templates with plural messages), nested plurals, plural with a bundle (soy.$$pluralIndex cases). *)
+   NOT part of it: nested plurals, plural with a bundle (soy.$$pluralIndex cases).  The plural inside a program of
+   Model/MiniJSProg.v: see C04_gen_correct_partial_plural_stmt below. *)
 Theorem C04_gen_correct_partial_plural : forall cf o cc lv, c_oblig cf = [] -> callctx_ok cf o cc ->
   forall pname v cs d D st je jst fuel i text env' old,
   sim cf cc st je jst old ->
@@ -868,6 +874,88 @@ Example C04_plural_nonvacuous :
   }
 ").
 Proof. vm_compute. repeat split; reflexivity. Qed.
+
+(* the plural as a STATEMENT of the subset (cstmt SMsgPl pname v q, q the chain of numbered bodies ending in the default):
+   the same step, as a case of the statement simulation C04_gen_correct_partial_stmt -- so a plural message may stand
+   anywhere a statement may (template bodies, blocks of if / switch / loops, parameter blocks), and templates containing
+   plural messages are programs of C04_gen_file_correct_partial / C04_gen_registry_correct_partial.  Its Soy meaning
+   (sout): the value of v must be an integer, the first body with that number, else the default, rendered as a message
+   (bodies of raw text, print, call: qwf); its MiniJS statement (sgen) is JSPlural (cgen v) cases, executed exactly as
+   JSSwitch and printed (sprint / kprint_nb) without the line "break;" after the default clause -- the text soyjs writes. *)
+Theorem C04_gen_correct_partial_plural_stmt : forall cf o cc lv st je jst pname v q fuel text env' old,
+  c_oblig cf = [] -> callctx_ok cf o cc -> (cc_fuel cc + sdepth (SMsgPl pname v q) < fuel)%nat -> sim cf cc st je jst old ->
+  swf lv (SMsgPl pname v q) = true -> lvok lv (j_scope jst) ->
+  sout (c_ij cf) (mode st) go_print_text (cc_denv cc) (cc_callee cc) (sc_lookup (ctx st)) (SMsgPl pname v q) = Some (text, env') ->
+  sim_step cf o cc lv st je jst (SMsgPl pname v q) fuel text env' old.
+Proof. exact gen_correct_partial_plural_stmt. Qed.
+Print Assumptions C04_gen_correct_partial_plural_stmt.
+
+(* the formulation over lists of cases (C04_gen_correct_partial_plural) talks about the same node, the same blocks, the
+   same emitted text and the same selected body as the statement SMsgPl pname v (c04_qof cs d) *)
+Theorem C04_plural_as_stmt : forall pname v cs d,
+  snode (SMsgPl pname v (c04_qof cs d)) = c04_plural_node pname v cs d
+  /\ (forall mode buf sc n jcs n1 jd n2, c04_plgen mode buf sc n cs = (jcs, n1) -> bgen mode buf sc n1 d = (jd, n2) ->
+        sgen mode buf sc n (SMsgPl pname v (c04_qof cs d)) = (JSPlural (cgen sc v) (c04_plk jcs jd), (sc, n2))
+        /\ (forall ind, sprint ind (JSPlural (cgen sc v) (c04_plk jcs jd)) = c04_plprint ind (cgen sc v) jcs jd)
+        /\ (forall jfn je, js_exec jfn je (JSPlural (cgen sc v) (c04_plk jcs jd)) = js_exec jfn je (JSSwitch (cgen sc v) (c04_plk jcs jd))))
+  /\ (forall ij mode pt dv cl env i, ceval ij env v = Some (VInt i) ->
+        sout ij mode pt dv cl env (SMsgPl pname v (c04_qof cs d)) = sout ij mode pt dv cl env (SMsg (c04_plpick i cs d)))
+  /\ (forall lv, swf lv (SMsgPl pname v (c04_qof cs d))
+                 = cwf lv v && (forallb (fun zb => msg_ok (snd zb) && bwf lv (snd zb)) cs && (msg_ok d && bwf lv d))).
+Proof.
+  intros pname v cs d. split; [apply c04_qof_node|]. split.
+  - intros mode buf sc n jcs n1 jd n2 Eg Ed. split; [exact (c04_qof_sgen mode buf sc pname v cs d n jcs n1 jd n2 Eg Ed)|].
+    split; [intro ind; apply c04_plprint_sprint_plural|intros jfn je; reflexivity].
+  - split; [intros ij mode pt dv cl env i Ev; apply c04_qof_sout; exact Ev|intro lv; apply c04_qof_swf].
+Qed.
+Print Assumptions C04_plural_as_stmt.
+
+(* non-vacuity: the file pl.soy, {namespace ns} {template .pl}You have {msg desc=""}{plural $x}{case 1}one{case 4}four: {$x}{default}{$a.b} items{/plural}{/msg}.{/template}
+   satisfies every hypothesis of C04_gen_file_correct_partial; with x = 4, a.b = 5 the three sides give "You have four: 4."
+   and gen_file's chunks render to the file below (no "break;" after the default clause) *)
+Definition ex_pl_ct : ctmpl :=
+  {| ct_name := b "ns.pl"; ct_ns_ae := 1; ct_ae := 0; ct_allopt := false;
+     ct_body := BCons (SRaw (b "You have ")) (BCons (SMsgPl (b "x") (CVar (b "x") []) (c04_qof ex_pl_cases ex_pl_dflt)) (BCons (SRaw (b ".")) BNil)) |}.
+Definition ex_pl_prog : list ctmpl := [ex_pl_ct].
+Definition ex_pl_data : list (bstr * value) := [(b "a", VMap 2 [(b "b", VInt 5)]); (b "x", VInt 4)].
+Definition ex_pl_cf : cfg :=
+  {| c_reg := {| r_templates := c04_templates ex_pl_prog; r_sources := []; r_files := [] |}; c_ij := None; c_oblig := []; c_msgs := None |}.
+Example C04_plural_file_nonvacuous :
+  (forall t, In t ex_pl_prog -> ct_ns_ae t = 1 /\ (S (S (bdepth (ct_body t))) < 20)%nat /\ bwf [] (ct_body t) = true)
+  /\ r_templates (c_reg ex_pl_cf) = c04_templates ex_pl_prog
+  /\ c04_tout None go_print_text ex_pl_prog 3 (b "ns.pl") (fun q => assoc_s q ex_pl_data) = Some (b "You have four: 4.")
+  /\ c04_jcall (c04_jprog_chain ex_pl_prog 0) 3 (b "ns.pl") (to_js (VMap 1 ex_pl_data)) JUndef = Ok (b "You have four: 4.")
+  /\ (let r := render ex_pl_cf 40 (b "ns.pl") 1 ex_pl_data None None 10 in (rr_outcome r, concat_b (rr_writes r))) = (Ok tt, b "You have four: 4.")
+  /\ (match gen_file ex_opts 20 (b "pl.soy") (c04_file_nodes (b "ns") 1 ex_pl_prog) with
+      | Ok cs => Some (render_chunks is_print_tbl cs) | _ => None end) = Some (b
+"// This file was automatically generated from pl.soy.
+// Please don't edit this file by hand.
+
+if (typeof ns == 'undefined') { var ns = {}; }
+
+ns.pl = function(opt_data, opt_sb, opt_ijData) {
+  var output = '';
+  output += 'You have ';
+  switch (opt_data.x) {
+    case 1:
+      output += 'one';
+      break;
+    case 4:
+      output += 'four: ';
+      output += soy.$$escapeHtml(opt_data.x);
+      break;
+    default:
+      output += soy.$$escapeHtml(opt_data.a.b);
+      output += ' items';
+  }
+  output += '.';
+  return output;
+};
+").
+Proof.
+  split; [intros t [<-|[]]; (split; [reflexivity|split; [apply Nat.ltb_lt; reflexivity|reflexivity]])|].
+  split; [reflexivity|]. vm_compute. repeat split; reflexivity.
+Qed.
 
 (* non-vacuity of the registry theorem: the two templates in two files (main.soy, item.soy), the call from ns.main to
    ns.item crossing the files; each file's table starts from counter 0 *)
